@@ -1,12 +1,341 @@
 /-
-C06 — listings are complete, ordered, duplicate-free and prefix-exact. (theorems: work in progress)
+C06 — listings are complete, ordered, duplicate-free and prefix-exact.
+
+Property theorems only. Model: `Pithos.Model.Listing` (the code as it is, prefix predicate selected
+by the regenerated statement text `Pithos.Gen.ListingSql`); spec: `Pithos.Spec.S3List`; helper
+lemmas: `Pithos.Lemmas.Listing`. All statements are for EVERY table, prefix, start marker and page
+size ≥ 1 — no bound. `delim.length ≤ 1` = no delimiter or a one-byte delimiter.
+
+What holds for the code as it is, and what does not:
+* ListParts (storage + HTTP) ........................ full (`parts_*_pages_exact`)
+* ListObjectVersions (storage = HTTP) ............... full for a byte-exact prefix predicate and
+  partial for `LIKE` (`LikeSafe` prefix), both under `OrderAgree` — the `null` version sorts
+  last even when it is the newest (`versions_null_order_witness`)
+* ListObjects v1/v2, ListMultipartUploads over HTTP . without delimiter: as for versions
+  (`objects_asis_nodelim`, `uploads_asis_nodelim`); with a delimiter the as-is paging loses and
+  repeats entries (`*_delimiter_paging_*` witnesses); the full theorem is proved for the
+  reference paging (`objects_reference_pages_exact`, `uploads_reference_pages_exact`)
+* `LIKE` itself: `like_*_witness` (case folding, `%`, `_`), `like_exact_partial`
+* delimiters of two or more bytes: `multichar_delimiter_witness`
 -/
-import Pithos.Model.Listing
+import Pithos.Lemmas.Listing
 
 namespace Pithos.C06
-open Pithos.Listing
+open Pithos.Listing Pithos.S3List
 
-/-- The regenerated statement table has the one-shape-per-family form the model interprets. -/
+/-! ## T1: the statement table the model was selected by -/
+
+/-- The regenerated statement table has the one-shape-per-family form the model interprets
+(same prefix predicate in find / find-with-limit / count, the recognised marker predicates, ORDER BY
+and LIMIT). -/
 theorem gen_consistent : genConsistent = true := by decide
+
+/-! ## Hypotheses of the partial theorems -/
+
+/-- The prefix predicate is byte-exact: either the statement is the exact form, or it is `LIKE`
+and the prefix contains no `%`, no `_` and no ASCII letter. -/
+def FilterExact (f : PrefixFilter) (pfx : Key) : Prop := f = .exact ∨ LikeSafe pfx = true
+
+/-- Inside every key the implementation's order key (`sub`: ULID rank, `0` for `null`) orders the
+rows like S3's order key (`seq`: initiation order / write sequence). For uploads this is "ULIDs
+sort by creation time"; for versions additionally "the `null` version is the oldest of its key". -/
+def OrderAgree (table : List Row) : Prop :=
+  ∀ a ∈ table, ∀ b ∈ table, a.key = b.key → (a.sub ≤ b.sub ↔ a.seq ≤ b.seq)
+
+/-! ## LIKE -/
+
+/-- **like_exact_partial.** For a prefix without `%`, `_` and ASCII letters, SQLite's
+`key LIKE prefix || '%'` selects exactly the keys that start with the prefix byte for byte. -/
+theorem like_exact_partial (pfx : Key) (h : LikeSafe pfx = true) (k : Key) :
+    matchPrefix .like pfx k = pfx.isPrefixOf k :=
+  sqliteLike_eq_isPrefixOf pfx h k
+
+/-- Negation witness: prefix `A` selects `abc`. -/
+theorem like_case_insensitive_witness :
+    matchPrefix .like [0x41] [0x61, 0x62, 0x63] = true ∧ List.isPrefixOf [0x41] [0x61, 0x62, 0x63] = false := by
+  decide
+
+/-- Negation witness: prefix `a%` selects `Abd` and `abc`. -/
+theorem like_percent_witness :
+    matchPrefix .like [0x61, 0x25] [0x41, 0x62, 0x64] = true ∧ matchPrefix .like [0x61, 0x25] [0x61, 0x62, 0x63] = true ∧
+    List.isPrefixOf [0x61, 0x25] [0x61, 0x62, 0x63] = false := by
+  decide
+
+/-- Negation witness: prefix `_b` selects `éb` (`_` = one character, two bytes here). -/
+theorem like_underscore_witness :
+    matchPrefix .like [0x5F, 0x62] [0xC3, 0xA9, 0x62] = true ∧ List.isPrefixOf [0x5F, 0x62] [0xC3, 0xA9, 0x62] = false := by
+  decide
+
+/-- Non-vacuity of `LikeSafe`: the prefix `0/1é-` is safe. -/
+example : LikeSafe [0x30, 0x2F, 0x31, 0xC3, 0xA9, 0x2D] = true := by decide
+
+/-! ## Grouping -/
+
+/-- For a delimiter of at most one byte, `determineCommonPrefix` and the `Contains(TrimPrefix …)`
+test group exactly like S3 on every key that starts with the prefix. -/
+theorem code_grouping_exact (pfx delim k : Key) (hd : delim.length ≤ 1) (hp : pfx.isPrefixOf k = true) :
+    codeCP pfx delim k = groupOf pfx delim k ∧ codeKeep pfx delim k = (groupOf pfx delim k).isNone :=
+  code_grouping_eq pfx delim k hd hp
+
+/-- Negation witness for longer delimiters: prefix `a`, delimiter `aa`, key `aab` — the rest `ab`
+does not contain `aa`, yet the code reports the common prefix `aa` (and lists the key as well). -/
+theorem multichar_delimiter_witness :
+    codeCP [0x61] [0x61, 0x61] [0x61, 0x61, 0x62] = some [0x61, 0x61] ∧
+    groupOf [0x61] [0x61, 0x61] [0x61, 0x61, 0x62] = none ∧
+    codeKeep [0x61] [0x61, 0x61] [0x61, 0x61, 0x62] = true := by
+  decide
+
+/-! ## ListParts (code as it is): full -/
+
+/-- **parts_http_pages_exact.** ListParts over HTTP: following NextPartNumberMarker until
+IsTruncated = false yields every part after the marker exactly once, ascending, nothing else. -/
+theorem parts_http_pages_exact (parts : List Nat) (maxParts : Nat) (marker : Option Nat)
+    (hmax : 1 ≤ maxParts) (hnd : parts.Nodup) :
+    (followPartsHttp parts maxParts marker).2 = .done ∧
+    ((followPartsHttp parts maxParts marker).1.map (·.items)).flatten = expectedParts parts (marker.getD 0) ∧
+    ∀ p ∈ (followPartsHttp parts maxParts marker).1, p.items.length ≤ maxParts :=
+  parts_http_follow parts maxParts marker hmax hnd
+
+/-- **parts_storage_pages_exact.** The same at the storage API. -/
+theorem parts_storage_pages_exact (parts : List Nat) (maxParts marker : Nat)
+    (hmax : 1 ≤ maxParts) (hnd : parts.Nodup) :
+    (followPartsStorage parts maxParts marker).2 = .done ∧
+    ((followPartsStorage parts maxParts marker).1.map (·.parts)).flatten = expectedParts parts marker ∧
+    ∀ p ∈ (followPartsStorage parts maxParts marker).1, p.parts.length ≤ maxParts :=
+  parts_storage_follow parts maxParts marker hmax hnd
+
+/-! ## ListObjectVersions (code as it is) -/
+
+theorem listing_congr {α : Type} (keyOf : α → Key) (pfx delim : Key) {a1 a2 : α → Bool} (rows : List α)
+    (h : ∀ r ∈ rows, a1 r = a2 r) : listing keyOf pfx delim a1 rows = listing keyOf pfx delim a2 rows := by
+  simp only [listing]
+  congr 2
+  apply List.filter_congr
+  intro r hr
+  rw [h r hr]
+
+/-- **versions_pages_exact** (partial: `FilterExact`, `OrderAgree`). ListObjectVersions — the HTTP
+handler returns the storage result unchanged — for every table of versions and delete markers with
+distinct `(key, version id)`, every prefix, delimiter of at most one byte, key-marker with or
+without the version-id-marker of an existing version, and page size ≥ 1: following
+NextKeyMarker / NextVersionIdMarker terminates with IsTruncated = false and the pages concatenate
+to exactly the S3 listing; no page exceeds max-keys. -/
+theorem versions_pages_exact (f : PrefixFilter) (table : List Row) (pfx delim km : Key)
+    (mrow : Option Row) (maxKeys : Nat) (hmax : 1 ≤ maxKeys) (hd : delim.length ≤ 1)
+    (hf : FilterExact f pfx) (hnd : (table.map fun r => (r.key, r.sub)).Nodup)
+    (hagree : OrderAgree table) (hm : ∀ x, mrow = some x → x ∈ table ∧ x.key = km) :
+    (followVersions f table pfx delim km ((mrow.map (·.sub)).getD 0) maxKeys).2 = .done ∧
+    PagesExact maxKeys ((followVersions f table pfx delim km ((mrow.map (·.sub)).getD 0) maxKeys).1.map (·.entries))
+      (expectedVersions table pfx delim km (mrow.map (·.seq))) := by
+  obtain ⟨h1, h2, h3⟩ := versions_follow f table pfx delim km ((mrow.map (·.sub)).getD 0) maxKeys hmax hd hf hnd
+  refine ⟨h1, ?_, ?_⟩
+  · rw [h2, expectedVersions]
+    have hsort : sortBy Listing.rowLeDesc table = sortBy S3List.rowLeDesc table := by
+      apply sortBy_congr
+      intro a ha b hb
+      simp only [Listing.rowLeDesc, S3List.rowLeDesc]
+      by_cases hk : a.key = b.key
+      · have := hagree b hb a ha hk.symm
+        simp [hk, this]
+      · have : (a.key == b.key) = false := by simpa using hk
+        simp [this]
+    rw [hsort]
+    apply listing_congr
+    intro r hr
+    have hrt : r ∈ table := (perm_sortBy S3List.rowLeDesc table).subset hr
+    cases mrow with
+    | none => simp [afterVersion, olderThan]
+    | some x =>
+      obtain ⟨hxt, hxk⟩ := hm x rfl
+      simp only [afterVersion, olderThan, Option.map_some, Option.getD_some]
+      by_cases hk : r.key = km
+      · have h1 := hagree x hxt r hrt (by rw [hxk, hk])
+        have : (r.sub < x.sub) ↔ (r.seq < x.seq) := by omega
+        simp [hk, this]
+      · have : (r.key == km) = false := by simpa using hk
+        simp [this]
+  · intro p hp
+    obtain ⟨q, hq, rfl⟩ := List.mem_map.mp hp
+    exact h3 q hq
+
+/-- Negation witness (`OrderAgree` fails): key `k` with a ULID version written first (`seq 1`) and
+the `null` version written after it (`seq 2`, e.g. a PUT while versioning is suspended). S3 lists the
+`null` version first; the code lists it last. -/
+theorem versions_null_order_witness :
+    let table : List Row := [⟨[0x6B], 1, 1⟩, ⟨[0x6B], 0, 2⟩]
+    ((followVersions .exact table [] [] [] 0 10).1.map (·.entries)).flatten
+      = [.item ⟨[0x6B], 1, 1⟩, .item ⟨[0x6B], 0, 2⟩] ∧
+    expectedVersions table [] [] [] none = [.item ⟨[0x6B], 0, 2⟩, .item ⟨[0x6B], 1, 1⟩] := by
+  decide
+
+/-- Non-vacuity: a table with a `null` version older than two ULID versions and a second key meets
+`OrderAgree` and the distinctness hypothesis. -/
+example : OrderAgree [⟨[0x6B], 0, 1⟩, ⟨[0x6B], 1, 2⟩, ⟨[0x6B], 2, 5⟩, ⟨[0x6A], 3, 4⟩] ∧
+    (([⟨[0x6B], 0, 1⟩, ⟨[0x6B], 1, 2⟩, ⟨[0x6B], 2, 5⟩, ⟨[0x6A], 3, 4⟩] : List Row).map fun r => (r.key, r.sub)).Nodup := by
+  refine ⟨?_, by decide⟩
+  intro a ha b hb _
+  simp only [List.mem_cons, List.not_mem_nil, or_false] at ha hb
+  rcases ha with rfl | rfl | rfl | rfl <;> rcases hb with rfl | rfl | rfl | rfl <;> simp_all
+
+/-! ## ListObjects -/
+
+/-- **objects_reference_pages_exact** (full, reference variant). With a byte-exact prefix
+predicate and the reference delimiter paging, ListObjects delivers exactly the S3 listing for
+every key set, prefix, delimiter of at most one byte, start marker and page size ≥ 1. -/
+theorem objects_reference_pages_exact (table : List Key) (pfx delim start : Key) (maxKeys : Nat)
+    (hmax : 1 ≤ maxKeys) (hd : delim.length ≤ 1) (hnd : table.Nodup) :
+    (followRefObjects .exact table pfx delim maxKeys start).2 = .done ∧
+    PagesExact maxKeys ((followRefObjects .exact table pfx delim maxKeys start).1.map (·.entries))
+      (expectedObjects table pfx delim start) := by
+  obtain ⟨h1, h2, h3⟩ := refObjects_follow .exact table pfx delim start maxKeys hmax hd (Or.inl rfl) hnd
+  refine ⟨h1, h2, ?_⟩
+  intro p hp
+  obtain ⟨q, hq, rfl⟩ := List.mem_map.mp hp
+  exact h3 q hq
+
+/-- **objects_asis_nodelim** (partial: no delimiter, `FilterExact`). ListObjects v1 and v2 as they
+are (`listObjects` + `listAndFilterObjects` + handlers): without a delimiter, following NextMarker /
+NextContinuationToken terminates and yields exactly the keys that start with the prefix and lie
+after the start marker, each once, in byte order, and never a common prefix. -/
+theorem objects_asis_nodelim (f : PrefixFilter) (table : List Key) (pfx : Key) (maxKeys : Nat)
+    (start : Option Key) (hmax : 1 ≤ maxKeys) (hf : FilterExact f pfx) (hnd : table.Nodup) :
+    (followObjectsHttp f table pfx [] maxKeys start).2 = .done ∧
+    PagesExact maxKeys ((followObjectsHttp f table pfx [] maxKeys start).1.map fun p => p.items.map Entry.item)
+      (expectedObjects table pfx [] (start.getD [])) ∧
+    ∀ p ∈ (followObjectsHttp f table pfx [] maxKeys start).1, p.cps = [] := by
+  obtain ⟨h1, h2, h3⟩ := objects_http_nodelim f table pfx maxKeys start hmax hf hnd
+  refine ⟨h1, ⟨?_, ?_⟩, fun p hp => (h3 p hp).2⟩
+  · rw [expectedObjects, listing_eq_listed, listed_nodelim]
+    have : (followObjectsHttp f table pfx [] maxKeys start).1.map (fun p => p.items.map Entry.item)
+        = ((followObjectsHttp f table pfx [] maxKeys start).1.map (·.items)).map (List.map Entry.item) := by
+      simp [List.map_map, Function.comp_def]
+    rw [this, ← List.map_flatten, h2]
+    rfl
+  · intro p hp
+    obtain ⟨q, hq, rfl⟩ := List.mem_map.mp hp
+    simpa using (h3 q hq).1
+
+/-- The same for the prefix predicate the current statement text selects. -/
+theorem objects_current_nodelim (table : List Key) (pfx : Key) (maxKeys : Nat) (start : Option Key)
+    (hmax : 1 ≤ maxKeys) (hf : FilterExact objectsFilter pfx) (hnd : table.Nodup) :
+    (followObjectsHttp objectsFilter table pfx [] maxKeys start).2 = .done ∧
+    PagesExact maxKeys ((followObjectsHttp objectsFilter table pfx [] maxKeys start).1.map fun p => p.items.map Entry.item)
+      (expectedObjects table pfx [] (start.getD [])) :=
+  let h := objects_asis_nodelim objectsFilter table pfx maxKeys start hmax hf hnd
+  ⟨h.1, h.2.1⟩
+
+/-- Negation witness (LIKE): keys `abc`, `b`; prefix `A`: the code lists `abc`, S3 lists nothing. -/
+theorem objects_like_witness :
+    ((followObjectsHttp .like [[0x61, 0x62, 0x63], [0x62]] [0x41] [] 5 none).1.map (·.items)).flatten = [[0x61, 0x62, 0x63]] ∧
+    expectedObjects [[0x61, 0x62, 0x63], [0x62]] [0x41] [] [] = [] := by
+  decide
+
+/-- Negation witness (delimiter paging, independent of LIKE): keys `a`, `b/1`, `c`, delimiter `/`,
+max-keys 1: the pages are `[a]`, `[c]`, `[]` — the common prefix `b/` is never returned. -/
+theorem objects_delimiter_paging_loses_prefix :
+    let keys : List Key := [[0x61], [0x62, 0x2F, 0x31], [0x63]]
+    (followObjectsHttp .exact keys [] [0x2F] 1 none).1.map (fun p => (p.items, p.cps, p.truncated))
+      = [([[0x61]], [], true), ([[0x63]], [], true), ([], [], false)] ∧
+    expectedObjects keys [] [0x2F] [] = [.item [0x61], .cp [0x62, 0x2F], .item [0x63]] := by
+  decide
+
+/-- Negation witness: keys `a/1`, `a/2`, `a/3`, `z`, delimiter `/`, max-keys 2: `z` is returned twice. -/
+theorem objects_delimiter_paging_duplicates_key :
+    let keys : List Key := [[0x61, 0x2F, 0x31], [0x61, 0x2F, 0x32], [0x61, 0x2F, 0x33], [0x7A]]
+    ((followObjectsHttp .exact keys [] [0x2F] 2 none).1.map (·.items)).flatten = [[0x7A], [0x7A]] ∧
+    expectedObjects keys [] [0x2F] [] = [.cp [0x61, 0x2F], .item [0x7A]] := by
+  decide
+
+/-- Non-vacuity of the reference theorem on the same inputs: the reference paging returns `a`,
+`b/`, `c` in three pages of one. -/
+example : ((followRefObjects .exact [[0x61], [0x62, 0x2F, 0x31], [0x63]] [] [0x2F] 1 []).1.map (·.entries))
+    = [[.item [0x61]], [.cp [0x62, 0x2F]], [.item [0x63]]] := by decide
+
+/-! ## ListMultipartUploads -/
+
+theorem uploads_order_congr (table : List Row) (hagree : OrderAgree table) :
+    sortBy Listing.rowLeAsc table = sortBy S3List.rowLeAsc table := by
+  apply sortBy_congr
+  intro a ha b hb
+  simp only [Listing.rowLeAsc, S3List.rowLeAsc]
+  by_cases hk : a.key = b.key
+  · have := hagree a ha b hb hk
+    simp [hk, this]
+  · have : (a.key == b.key) = false := by simpa using hk
+    simp [this]
+
+theorem uploads_after_congr (table : List Row) (hagree : OrderAgree table) (km : Key) (mrow : Option Row)
+    (hm : ∀ x, mrow = some x → x ∈ table ∧ x.key = km ∧ x.sub ≠ 0) (r : Row) (hrt : r ∈ table) :
+    afterUpload km ((mrow.map (·.sub)).getD 0) r
+      = (keyLt km r.key || (r.key == km && afterSeq (mrow.map (·.seq)) r.seq)) := by
+  cases mrow with
+  | none => simp [afterUpload, afterSeq]
+  | some x =>
+    obtain ⟨hxt, hxk, hx0⟩ := hm x rfl
+    have hne : (x.sub != 0) = true := by simpa using hx0
+    simp only [afterUpload, afterSeq, Option.map_some, Option.getD_some, hne, Bool.true_and]
+    by_cases hk : r.key = km
+    · have h1 := hagree r hrt x hxt (by rw [hxk, hk])
+      have : (x.sub < r.sub) ↔ (x.seq < r.seq) := by omega
+      simp [hk, this]
+    · have : (r.key == km) = false := by simpa using hk
+      simp [this]
+
+/-- **uploads_reference_pages_exact** (full, reference variant; `OrderAgree` = upload ids sort by
+initiation time). -/
+theorem uploads_reference_pages_exact (table : List Row) (pfx delim km : Key) (mrow : Option Row)
+    (maxUploads : Nat) (hmax : 1 ≤ maxUploads) (hd : delim.length ≤ 1)
+    (hnd : (table.map fun r => (r.key, r.sub)).Nodup) (hsub : ∀ r ∈ table, r.sub ≠ 0)
+    (hagree : OrderAgree table) (hm : ∀ x, mrow = some x → x ∈ table ∧ x.key = km ∧ x.sub ≠ 0) :
+    (followRefUploads .exact table pfx delim maxUploads km ((mrow.map (·.sub)).getD 0)).2 = .done ∧
+    PagesExact maxUploads
+      ((followRefUploads .exact table pfx delim maxUploads km ((mrow.map (·.sub)).getD 0)).1.map (·.entries))
+      (expectedUploads table pfx delim km (mrow.map (·.seq))) := by
+  obtain ⟨h1, h2, h3⟩ := refUploads_follow .exact table pfx delim km ((mrow.map (·.sub)).getD 0) maxUploads
+    hmax hd (Or.inl rfl) hnd hsub
+  refine ⟨h1, ?_, ?_⟩
+  · rw [h2, expectedUploads, uploads_order_congr table hagree]
+    apply listing_congr
+    intro r hr
+    exact uploads_after_congr table hagree km mrow hm r ((perm_sortBy S3List.rowLeAsc table).subset hr)
+  · intro p hp
+    obtain ⟨q, hq, rfl⟩ := List.mem_map.mp hp
+    exact h3 q hq
+
+/-- **uploads_asis_nodelim** (partial: no delimiter, `FilterExact`, `OrderAgree`).
+ListMultipartUploads over HTTP as it is. -/
+theorem uploads_asis_nodelim (f : PrefixFilter) (table : List Row) (pfx : Key) (maxUploads : Nat)
+    (km : Option Key) (mrow : Option Row) (hmax : 1 ≤ maxUploads) (hf : FilterExact f pfx)
+    (hnd : (table.map fun r => (r.key, r.sub)).Nodup) (hsub : ∀ r ∈ table, r.sub ≠ 0)
+    (hagree : OrderAgree table)
+    (hm : ∀ x, mrow = some x → x ∈ table ∧ x.key = km.getD [] ∧ x.sub ≠ 0) :
+    (followUploadsHttp f table pfx [] maxUploads km (mrow.map (·.sub))).2 = .done ∧
+    PagesExact maxUploads
+      ((followUploadsHttp f table pfx [] maxUploads km (mrow.map (·.sub))).1.map fun p => p.items.map Entry.item)
+      (expectedUploads table pfx [] (km.getD []) (mrow.map (·.seq))) ∧
+    ∀ p ∈ (followUploadsHttp f table pfx [] maxUploads km (mrow.map (·.sub))).1, p.cps = [] := by
+  obtain ⟨h1, h2, h3⟩ := uploads_http_nodelim f table pfx maxUploads km (mrow.map (·.sub)) hmax hf hnd hsub
+  refine ⟨h1, ⟨?_, ?_⟩, fun p hp => (h3 p hp).2⟩
+  · rw [expectedUploads, ← uploads_order_congr table hagree]
+    rw [listing_congr (·.key) pfx [] (sortBy Listing.rowLeAsc table)
+      (fun r hr => (uploads_after_congr table hagree (km.getD []) mrow hm r
+        ((perm_sortBy Listing.rowLeAsc table).subset hr)).symm)]
+    rw [listing_eq_listed, listed_nodelim]
+    have : (followUploadsHttp f table pfx [] maxUploads km (mrow.map (·.sub))).1.map (fun p => p.items.map Entry.item)
+        = ((followUploadsHttp f table pfx [] maxUploads km (mrow.map (·.sub))).1.map (·.items)).map (List.map Entry.item) := by
+      simp [List.map_map, Function.comp_def]
+    rw [this, ← List.map_flatten, h2]
+  · intro p hp
+    obtain ⟨q, hq, rfl⟩ := List.mem_map.mp hp
+    simpa using (h3 q hq).1
+
+/-- Negation witness (delimiter paging): uploads `a`, `b/1`, `b/2`, `c` (ids in this order),
+delimiter `/`, max-uploads 1: the HTTP pages are `[a]`, `[c]`, `[]` — `b/` is never returned. -/
+theorem uploads_delimiter_paging_loses_prefix :
+    let table : List Row := [⟨[0x61], 1, 1⟩, ⟨[0x62, 0x2F, 0x31], 2, 2⟩, ⟨[0x62, 0x2F, 0x32], 3, 3⟩, ⟨[0x63], 4, 4⟩]
+    (followUploadsHttp .exact table [] [0x2F] 1 none none).1.map (fun p => (p.items.map (·.sub), p.cps, p.truncated))
+      = [([1], [], true), ([4], [], true), ([], [], false)] ∧
+    (expectedUploads table [] [0x2F] [] none).length = 3 := by
+  decide
 
 end Pithos.C06
